@@ -549,3 +549,69 @@ impl Ctx {
         }
     }
 }
+
+// ---------------------------------------------------------------------------
+// Coverage-guided mode: the same generators and oracles, driven by libFuzzer.
+
+/// One libFuzzer input. `mode` (first byte) selects the sub-generator; the
+/// rest is either used verbatim (`raw`, for the byte-level properties) or fed
+/// to the proptest strategies as their source of randomness (`draw`), so that
+/// libFuzzer's mutations become mutations of the generated case.
+pub struct FuzzIn<'a> {
+    pub mode: u8,
+    pub raw: &'a [u8],
+    runner: proptest::test_runner::TestRunner,
+}
+
+impl<'a> FuzzIn<'a> {
+    pub fn new(data: &'a [u8]) -> FuzzIn<'a> {
+        use proptest::test_runner::{Config, RngAlgorithm, TestRng, TestRunner};
+        let (mode, raw) = match data.split_first() {
+            Some((m, r)) => (*m, r),
+            None => (0, data),
+        };
+        // proptest's pass-through generator (bytes of the input used as the
+        // random stream) cannot be used: it halves the remaining stream at
+        // every fork and yields zeros once exhausted, on which rand's
+        // unbiased range sampler never terminates. The strategies are driven
+        // by ChaCha seeded with a digest of the input instead: for them a
+        // mutation is a fresh draw, and libFuzzer only contributes corpus
+        // retention by coverage. The byte-level and `mv()` modes are the ones
+        // where mutations are structure-preserving.
+        let mut seed = [0u8; 32];
+        for (i, chunk) in seed.chunks_mut(8).enumerate() {
+            chunk.copy_from_slice(&mix(digest_of(raw), i as u64 + 1).to_le_bytes());
+        }
+        let rng = TestRng::from_seed(RngAlgorithm::ChaCha, &seed);
+        let cfg = Config { failure_persistence: None, max_local_rejects: 64, max_global_rejects: 64, ..Config::default() };
+        FuzzIn { mode, raw, runner: TestRunner::new_with_rng(cfg, rng) }
+    }
+
+    /// Draw one value (None when the strategy rejects this byte stream).
+    pub fn draw<S: proptest::strategy::Strategy>(&mut self, s: &S) -> Option<S::Value> {
+        use proptest::strategy::ValueTree;
+        s.new_tree(&mut self.runner).ok().map(|t| t.current())
+    }
+
+    /// A model value decoded from the bytes after `skip` header bytes
+    /// (structure-preserving under libFuzzer's mutations).
+    pub fn mv(&self, skip: usize, cfg: crate::gen::ValueCfg, depth: u32) -> crate::mv::MV {
+        let mut c = crate::gen::Cur::new(self.raw.get(skip..).unwrap_or(&[]));
+        crate::gen::decode_mv(&mut c, cfg, depth)
+    }
+
+    /// Parser option set index and input for the byte-level properties: two
+    /// bytes of options (0xFFFF/0xFFFE = default / Emacs Lisp), then the input.
+    pub fn raw_q_input(&self) -> (usize, &'a [u8]) {
+        if self.raw.len() < 2 {
+            return (0, &[]);
+        }
+        let k = u16::from_le_bytes([self.raw[0], self.raw[1]]) as usize;
+        let q = match k {
+            0xFFFF | 0x2020 => 0,
+            0xFFFE | 0x2121 => crate::opts::QOpt::elisp().index(),
+            k => k % crate::opts::N_QOPT,
+        };
+        (q, &self.raw[2..])
+    }
+}
